@@ -18,7 +18,7 @@ for pid in props:
         "evidence_file": "/verif/evidence/%s.json" % pid,
         "replay_cmd_template": "./check %s --replay {path}" % pid,
         "engine": c["engine"],
-        "level_claimed": {"category": c["category"], "text": c["text"], "design_ref": "DESIGN.md §3 %s" % pid},
+        "level_claimed": {"category": c["category"], "text": c["text"] + (" " + c["round2"] if c.get("round2") else ""), "design_ref": "DESIGN.md §3 %s and §8" % pid},
         "level_note": c["note"],
         "technique": c["technique"],
     })
